@@ -229,15 +229,20 @@ func checkCase(c Case) (*h.Failure, string) {
 	if crash != nil || errs != nil {
 		return nil, "not-accepted"
 	}
+	steps := -1
 	if c.Large == "" {
 		_, _, res := bcx.EvalGlobals(prog)
 		if res.FuelOut || res.TooMuch || res.Yields > 20000 {
 			return nil, "too-expensive"
 		}
+		steps = res.Yields
 	}
-	vm := bcx.RunVM(prog)
+	vm := bcx.RunVM(prog, steps)
+	if vm.Slow {
+		return nil, "vm-slow"
+	}
 	if vm.Hang {
-		return mk("vm-hang", "the VM did not finish within 20 s", ""), "vm-hang"
+		return mk("vm-hang", fmt.Sprintf("the VM was still running after %d instructions (the evaluator needs %d evaluation steps; budget 200000 + 2000 per step)", vm.Steps, steps), ""), "vm-hang"
 	}
 	if vm.CompileErr != nil {
 		return nil, "compile-error"
